@@ -74,6 +74,17 @@ def cases(tier, rng, dist):
                "rand": rng.choice(["strata", "strata", "group"]), "g_other": [rng.choice([5, 6, 6]) for _ in range(n)], "aseed": rng.randint(0, 10**9)}
     for s in range(6 if tier == "quick" else 30):
         yield {"f": "repro", "seed": 100 + s, "strat": bool(s % 2)}
+    # FAILURE PATHS: a call that is aborted in the middle of its repetition loop (a test function that raises an ordinary exception
+    # or a non-Exception such as Ctrl-C), or that is handed an unusable seed, must leave the Experiment usable and, with
+    # in_place=False, exactly as it was: same assignment, same Randomizer object, same generator object, not advanced
+    for k in range(40 if tier == "quick" else 400):
+        n = rng.randint(4, 7)
+        gg = [0, 1] + [rng.randrange(2) for _ in range(n - 2)]; rng.shuffle(gg)
+        yield {"f": "failhist", "g": gg, "s1": [rng.randint(0, 1) for _ in range(n)], "s2": [rng.randint(0, 2) for _ in range(n)], "strat": rng.random() < 0.6,
+               "resp": [[rng.randint(-3, 3), rng.randint(-3, 3)] for _ in range(n)], "warm": rng.random() < 0.5,
+               "fail": rng.choice(["sim_npc", "wy", "sim_npc", "wy", "bad_seed_randomize", "bad_seed_sim_npc", "bad_seed_wy"]), "in_place": rng.random() < 0.5,
+               "at": rng.randint(3, 6), "base": rng.random() < 0.5, "restrat": rng.random() < 0.5, "reps": rng.randint(2, 4),
+               "container": rng.choice(["lists", "table"]), "aseed": rng.randint(0, 10**9), "gseed": rng.randint(0, 10**6)}
 
 
 LAB = ["a", "b", "c", "d"]
@@ -106,6 +117,121 @@ def mk_tests(spec):
     for name, idx in spec:
         out.append(Experiment.make_test_array(fns[name], [idx])[0])
     return out
+
+
+def run_failhist(c):
+    import random as _r
+    n = len(c["g"])
+    t0 = Tape(None, lazy(_r.Random(c["aseed"]), "random"))
+    fn = NPC.randomize_in_strata if c["strat"] else NPC.randomize_group
+    R = Experiment.Randomizer(randomize=fn, seed=t0)
+    if c["container"] == "table":
+        table = np.empty((n, 4), dtype=object)
+        for i in range(n):
+            table[i, 0] = c["s1"][i]; table[i, 1] = 7; table[i, 2] = c["resp"][i][0]; table[i, 3] = c["resp"][i][1]
+        e = Experiment(group=np.array(c["g"], dtype=object), response=table[:, 2:], covariate=table[:, 0:2], randomizer=R)
+    else:
+        e = Experiment(group=list(c["g"]), response=[list(r) for r in c["resp"]], covariate=[[v, 7] for v in c["s1"]], randomizer=R)
+    init = snap(e)
+    out = {}
+    if c["warm"]:
+        out["warm"] = list(guarded(lambda: [int(v) for v in e.randomize(in_place=True).group]))[:2]
+    g_before = [int(v) for v in e.group]
+    log_before = len(t0.log)
+    calls = [0]
+    def failing(data):
+        calls[0] += 1
+        if calls[0] >= c["at"]:
+            raise (Abort() if c["base"] else ValueError("test statistic failed on purpose"))
+        return float(np.sum(np.asarray(data.response)[np.asarray(data.group) == data.group[0], 0].astype(float)))
+    good = mk_tests([["mean_diff", 0], ["mean_diff", 1]])
+    np.random.seed(c["gseed"]); gstate = np.random.get_state()[1].tolist()[:8]
+    bad_seed = [[1, 2], {"seed": 3}, np.random.default_rng(1), np.array(5)][c["at"] % 4]
+    fk = c["fail"]
+    if fk == "sim_npc":
+        th = lambda: NPC.sim_npc(e, [failing, good[1]], combine="tippett", in_place=c["in_place"], reps=c["reps"] + 3)
+    elif fk == "wy":
+        th = lambda: NPC.westfall_young(e, [good[0], failing], method=["minP", "maxT"][c["at"] % 2], in_place=c["in_place"], reps=c["reps"] + 3)
+    elif fk == "bad_seed_randomize":
+        th = lambda: e.randomize(in_place=c["in_place"], seed=bad_seed)
+    elif fk == "bad_seed_sim_npc":
+        th = lambda: NPC.sim_npc(e, good, combine="tippett", in_place=c["in_place"], reps=c["reps"], seed=bad_seed)
+    else:
+        th = lambda: NPC.westfall_young(e, good, in_place=c["in_place"], reps=c["reps"], seed=bad_seed)
+    out["failed"] = rejected(th)
+    out["after_fail"] = {"group": [int(v) for v in e.group], "group_before": g_before, "others_same": snap(e) == init, "same_randomizer": e.randomizer is R,
+                         "same_prng": e.randomizer.prng is t0, "draws_by_failed_call": len(t0.log) - log_before, "n_forks": len(t0.forks)}
+    # follow-up: (optionally) re-stratify in place, then valid calls
+    strata = list(c["s1"])
+    if c["restrat"] and c["strat"]:
+        strata = list(c["s2"])
+        e.covariate[:, 0] = np.array(strata, dtype=object)
+        init = snap(e)          # (the caller's own edit of the strata)
+    out["strata_now"] = strata
+    follow = []
+    gb = [int(v) for v in e.group]
+    r1 = guarded(lambda: [int(v) for v in e.randomize(in_place=True).group]); follow.append(["randomize", gb, list(r1)[:2]])
+    gb = [int(v) for v in e.group]
+    r2 = guarded(lambda: NPC.sim_npc(e, good, combine="tippett", in_place=True, reps=c["reps"]))
+    follow.append(["sim_npc", gb, [r2[0]] + ([float(r2[1][0])] if r2[0] == "ok" else list(r2[1:3])), [int(v) for v in e.group]])
+    gb = [int(v) for v in e.group]
+    r3 = guarded(lambda: [int(v) for v in e.randomize(in_place=False).group]); follow.append(["randomize_copy", gb, list(r3)[:2], [int(v) for v in e.group]])
+    out["follow"] = follow
+    out["gstate_same"] = np.random.get_state()[1].tolist()[:8] == gstate
+    out["same_prng_end"] = e.randomizer.prng is t0
+    out["others_same_end"] = snap(e) == init
+    return out
+
+
+def oracle_failhist(c, o):
+    what = f"{c['fail']}(in_place={c['in_place']}) aborted by {'a non-Exception (Ctrl-C-like)' if c['base'] else 'a ValueError'} at the statistic's evaluation {c['at']}" \
+        if not c["fail"].startswith("bad_seed") else f"{c['fail']}(in_place={c['in_place']}) with an unusable seed object"
+    if o["failed"][0] != "exc":
+        _v = emit({"why": f"{what}: the call returned normally", "cls": "experiment:raises"})
+        if _v: return _v
+    a = o["after_fail"]
+    g0 = sorted(c["g"])
+    def strata_ok(g, ref, strata):
+        return all(sorted(g[i] for i in range(len(g)) if strata[i] == st) == sorted(ref[i] for i in range(len(g)) if strata[i] == st) for st in set(strata))
+    if not a["others_same"] or not o["others_same_end"]:
+        _v = emit({"why": f"{what}: responses or covariates changed", "cls": "experiment:response-changed"})
+        if _v: return _v
+    if sorted(a["group"]) != g0:
+        _v = emit({"why": f"{what}: the assignment left behind {a['group']} is not a rearrangement of {c['g']}", "cls": "experiment:labels-not-conserved"})
+        if _v: return _v
+    if c["strat"] and not strata_ok(a["group"], a["group_before"], c["s1"]):
+        _v = emit({"why": f"{what}: labels moved between strata: {a['group_before']} -> {a['group']} (strata {c['s1']})", "cls": "experiment:strata-violated"})
+        if _v: return _v
+    if (not c["in_place"] or c["fail"].startswith("bad_seed")) and a["group"] != a["group_before"]:
+        _v = emit({"why": f"{what}: the caller's assignment changed {a['group_before']} -> {a['group']}", "cls": "experiment:in-place-false-mutates"})
+        if _v: return _v
+    if not a["same_randomizer"] or not a["same_prng"] or not o["same_prng_end"]:
+        _v = emit({"why": f"{what}: afterwards the Experiment holds a different Randomizer / generator object than before the call (same randomizer: {a['same_randomizer']}, same generator: {a['same_prng']}, at the end: {o['same_prng_end']})", "cls": "experiment:in-place-false-mutates"})
+        if _v: return _v
+    if (not c["in_place"] or c["fail"].startswith("bad_seed")) and a["draws_by_failed_call"] != 0:
+        _v = emit({"why": f"{what}: the Experiment's own generator was advanced by {a['draws_by_failed_call']} draws although the call worked on a copy / never started", "cls": "experiment:in-place-false-mutates"})
+        if _v: return _v
+    if not o["gstate_same"]:
+        _v = emit({"why": f"{what}: a later call without a new seed drew from the global np.random state", "cls": "experiment:global-rng"})
+        if _v: return _v
+    strata = o["strata_now"]
+    for step in o["follow"]:
+        name, gb, r = step[0], step[1], step[2]
+        if r[0] != "ok":
+            _v = emit({"why": f"{what}: the valid call {name} that followed raised {r}", "cls": "experiment:raises"})
+            if _v: return _v
+            continue
+        ga = r[1] if name != "sim_npc" else step[3]
+        if name == "randomize_copy" and step[3] != gb:
+            _v = emit({"why": f"{what}: a later randomize(in_place=False) changed the caller's assignment {gb} -> {step[3]}", "cls": "experiment:in-place-false-mutates"})
+            if _v: return _v
+        if sorted(ga) != g0:
+            _v = emit({"why": f"{what}: the later call {name} produced {ga}, not a rearrangement of {c['g']}", "cls": "experiment:labels-not-conserved"})
+            if _v: return _v
+        if c["strat"] and not strata_ok(ga, gb, strata):
+            _v = emit({"why": f"{what}: the later call {name} moved labels between the strata in force {strata}: {gb} -> {ga}", "cls": "experiment:strata-violated"})
+            if _v: return _v
+    return None
 
 
 def run_restrat(c):
@@ -154,6 +280,8 @@ def run(c):
         return run_history(c)
     if f == "restrat":
         return run_restrat(c)
+    if f == "failhist":
+        return run_failhist(c)
     if f == "testfn":
         e = Experiment(group=labels_of(c), response=c["resp"])
         fn = {"mean_diff": Experiment.TestFunc.mean_diff, "ttest": Experiment.TestFunc.ttest, "anova": Experiment.TestFunc.one_way_anova}[c["fn"]]
@@ -358,6 +486,8 @@ def oracle_restrat(c, o):
 
 def oracle(c, o):
     f = c["f"]
+    if f == "failhist":
+        return oracle_failhist(c, o)
     if f == "restrat":
         return oracle_restrat(c, o)
     if f == "types":
@@ -530,6 +660,8 @@ def to_coq(c, o):
 
 
 def nontrivial(c, o):
+    if c["f"] == "failhist":
+        return o["failed"][0] == "exc"
     if c["f"] != "history":
         return c["f"] == "testfn" and o["r"][0] == "ok"
     ips = [op["in_place"] for op in c["ops"][:len(o["steps"])]]
